@@ -16,7 +16,7 @@ TECHNIQUE = {
  "C11": "Lean 4 proof on an explicit heap model of backing-array sharing: snapshot stability along replace/merge histories, refutation witnesses for the in-place paths; differential correspondence with every handle retained and re-read",
  "C12": "Lean 4 proof: per-write automaton refinement over all event lists (exactly one outcome, applied iff unanimous in time, independence); schedule-driven correspondence with real timers through the ApproveOrDenyWrite yield hook",
  "C13": "Lean 4 proof: counter uniqueness over all interleavings (event-sourced), cache invariant and MODEL |= SPEC monitor over all histories; constants and critical-section facts regenerated from send.go; differential correspondence on Sender and through the stack",
- "C14": "Lean 4 proof: exactly-once / only-own-message / duplicate-refused / result callbacks over all event lists; differential correspondence on real reply/result datagrams from two peers + SPEC monitor",
+ "C14": "Lean 4 proof: exactly-once / only-own-message / duplicate-refused / result callbacks over all event lists; regenerated critical-section and invocation-site facts of feature_local.go (registration / delivery one section; callbacks run outside the registry lock) with a thread model of the non-re-entrant mutex (progress + termination for re-entering callbacks); differential correspondence on real reply/result datagrams from two peers + SPEC monitor incl. re-entering / slow callbacks under a kept-time watchdog",
  "C15": "Lean 4 proof: exactly-once, core-before-application, nothing-after-unsubscribe, re-entrancy in a lock-aware model, over all event lists; lock-region facts of events.go regenerated; differential correspondence incl. queued-publisher schedules; concurrent monitor under the race detector",
  "C16": "Lean 4 proof: single stream / no double close over all event lists, period arithmetic, counter order, stop finality; schedule-driven correspondence through the start/stop yield hooks; live real-time monitor (real-time clauses partial, A-time)",
  "C18": "Lean 4 proof: table theorems decided (decide +kernel) over the function factory, CmdType/FilterType tags and the 1 470-type JSON schema regenerated from /repo; generic JSON decode(encode v) theorem instantiated for every schema type; exhaustive 127 functions x 12 shapes correspondence",
